@@ -286,6 +286,15 @@ pub fn run_c02(tier: &str, seed: u64, model: &Model, corpus: Vec<Case>) -> Repor
 // ---------------------------------------------------------------- C03
 
 fn impl_posmaps(c: &Case) -> String {
+    if c.kind == "posmapsp" && c.params.len() == 2 {
+        // the same tables built inside a rayon pool of the given size (the tables must not depend on the number of workers
+        // that happen to be available: auto-detected core count, RAYON_NUM_THREADS)
+        let inner = Case::new("posmaps", &c.params[..1], &[], "per-k");
+        return match rayon::ThreadPoolBuilder::new().num_threads(c.params[1] as usize).build() {
+            Ok(pool) => pool.install(|| impl_posmaps(&inner)),
+            Err(e) => format!("panic:pool {}", e),
+        };
+    }
     let k = c.params[0] as usize;
     let (pos_map, pos_kmer, count) = KmerGenerator::kmer_pos_maps(k);
     let mut inv: Vec<String> = Vec::new();
@@ -364,5 +373,12 @@ pub fn run_c03(tier: &str, _seed: u64, model: &Model, _corpus: Vec<Case>) -> Rep
     rep.exhaustive_spaces
         .push(format!("all 4^k codes for every k in 1..={}", kmax));
     run_section(&mut rep, model, "tables", cases, &impl_posmaps, &judge_posmaps);
+    let mut pcases = Vec::new();
+    for pool in [1u64, 2, 3, 5, 6, 7, 9, 11, 12, 13, 17, 20, 24, 26, 33, 48, 64] {
+        for k in 1..=5u64 {
+            pcases.push(Case::new("posmapsp", &[k, pool], &[], "per-k-per-pool"));
+        }
+    }
+    run_section(&mut rep, model, "tables-in-pools", pcases, &impl_posmaps, &judge_posmaps);
     rep
 }
